@@ -251,6 +251,11 @@ func (s *State) Mem(srt string) *Term {
 func (s *State) SetMem(srt string, m *Term) { s.mem["M:"+srt] = m }
 
 func (s *State) Load(loc *Term, srt string) *Term {
+	if bypassImmutable && ctorOf(loc) == "mkloc" && loc.Args[0].IntV != nil && immutableGlobalIDs[loc.Args[0].IntV.Int64()] {
+		// a package-level variable that is only assigned by its package's
+		// initialiser: its value is the same in every state
+		return Select(Leaf("M0_"+sortKey(srt), SArr(SLoc, srt)), loc)
+	}
 	t := s.Sel(s.Mem(srt), loc)
 	if r, ok := s.subst[t]; ok && !r.IsLit() {
 		return r
@@ -686,9 +691,14 @@ func (e *Exec) globalLoc(g *ssa.Global) *Term {
 	if !ok {
 		id = -(len(globalIDs) + 10)
 		globalIDs[k] = id
+		if e.W != nil && e.W.globalImmutable(g) {
+			immutableGlobalIDs[int64(id)] = true
+		}
 	}
 	return MkLoc(IntLit(int64(id)), IntLit(0), BV64(0))
 }
+
+var immutableGlobalIDs = map[int64]bool{}
 
 func (e *Exec) fnLoc(f *ssa.Function) *Term {
 	k := "func:" + f.String()
@@ -987,7 +997,13 @@ func (e *Exec) step(st *State, fr *Frame, b *ssa.BasicBlock, i int, in ssa.Instr
 		e.doCall(st, fr, b, i, in)
 		return false, true
 	case *ssa.ChangeInterface:
-		fr.vals[in] = &Value{T: in.Type(), L: e.val(st, fr, in.X).L}
+		x := e.val(st, fr, in.X)
+		if isNamed(in.X.Type(), "reflect", "Type") && !isNamed(in.Type(), "reflect", "Type") {
+			// reflect.Type is modelled as a type code; as a general interface value it is boxed
+			fr.vals[in] = &Value{T: in.Type(), L: []*Term{e.boxValue(st, x)}}
+		} else {
+			fr.vals[in] = &Value{T: in.Type(), L: x.L}
+		}
 	case *ssa.ChangeType:
 		x := e.val(st, fr, in.X)
 		fr.vals[in] = &Value{T: in.Type(), L: x.L, Fn: x.Fn, Bnd: x.Bnd}
